@@ -377,18 +377,77 @@ LoopChecks(r) ==
   ELSE << <<"event_sequence", r.events = ExpectedEvents(r.model_start, r.iterations, r.aligner)>>,
           <<"iteration_numbers", r.mstep_iterations = [i \in 1..r.iterations |-> i - 1]>> >>
 
+(* ---- fixedpoint : the true partition of separable data is a stable EM fixed point (C03) ---- *)
+\* r.truth flat (..L, N) class indices (0-based); r.post flat (..L, K, N) posteriors; r.protos flat (..L, K, D) (complex);
+\* r.fields canonical fields of the fitted model; delta = 1/16.  Means / mean directions are weighted averages: after a
+\* single iteration from a heavily blurred start they are still pulled towards the other classes (r.strict =
+\* iterations >= 2 or blur <= 0.1 marks the records where the closeness of means is claimed)
+FPDelta == FPow2(-4)
+PAt(r, ld, k, a) == LET v == Get(r.protos, ld \o <<k, a>>) IN IF r.pcplx THEN v ELSE <<v, FZero>>
+PNorm2(r, ld, k) == FSum([a \in 1..r.protos.shape[Len(r.protos.shape)] |-> ZAbs2(PAt(r, ld, k, a - 1))])
+\* p^H M p for a canonical (..L, K, D, D) field
+QuadField(r, name, ld, k) ==
+  LET D == r.protos.shape[Len(r.protos.shape)]
+      f == Field(r.fields, name)
+      pre == IF Len(f.t.shape) = 3 THEN <<>> ELSE ld        \* integration models: no leading axis on the spectral stream
+  IN  ZSum([i \in 1..(D * D) |-> LET a == (i - 1) \div D b == (i - 1) % D
+                                  IN  ZMul(ZMul(ZConj(PAt(r, ld, k, a)), Get(f.t, pre \o <<k, a, b>>)), PAt(r, ld, k, b))])[1]
+ArgMaxClass(r, ld, n) ==
+  LET K == KOf(r)
+  IN  CHOOSE k \in 0..(K - 1) : \A j \in 0..(K - 1) :
+        FLt(Get(r.post, ld \o <<j, n>>), Get(r.post, ld \o <<k, n>>)) \/ (Get(r.post, ld \o <<j, n>>) = Get(r.post, ld \o <<k, n>>) /\ k <= j)
+FixedPointChecks(r) ==
+  IF r.exc # "" THEN << <<"raises", FALSE>> >>
+  ELSE IF ~(\A i \in 1..Len(r.post.data) : IsFlt(r.post.data[i])) \/ ~(\A i \in 1..Len(r.fields) : FieldFinite(r.fields[i]))
+       THEN << <<"finite", FALSE>> >>
+  ELSE LET leads == LeadIdx(r)
+       IN << <<"argmax_is_truth", \A i \in 1..Len(leads) : \A n \in 0..(NOf(r) - 1) :
+                  ArgMaxClass(r, leads[i], n) = Get(r.truth, leads[i] \o <<n>>)>> >>
+          \o (IF DHas(r, "cacg_covariance") THEN << <<"cacg_principal_direction",
+                 \A i \in 1..Len(leads) : \A k \in 0..(KOf(r) - 1) :
+                    LET lam == Field(r.fields, "cacg_eigenvalues").t
+                        D == lam.shape[Len(lam.shape)]
+                        lmax == Get(lam, leads[i] \o <<k, D - 1>>)       \* eigenvalues sorted ascending by the encoder
+                    IN  FLe(FMul(FMul(FSub(FOne, FPDelta), lmax), PNorm2(r, leads[i], k)), QuadField(r, "cacg_covariance", leads[i], k))>> >> ELSE <<>>)
+          \o (IF DHas(r, "watson_mode_outer") THEN << <<"watson_mode_direction",
+                 \A i \in 1..Len(leads) : \A k \in 0..(KOf(r) - 1) :
+                    FLe(FMul(FSub(FOne, FPDelta), PNorm2(r, leads[i], k)), QuadField(r, "watson_mode_outer", leads[i], k))>> >> ELSE <<>>)
+          \o (IF DHas(r, "bingham_covariance") THEN << <<"bingham_mode_direction",
+                 \A i \in 1..Len(leads) : \A k \in 0..(KOf(r) - 1) :
+                    LET lam == Field(r.fields, "bingham_eigenvalues").t
+                        lmin == Get(lam, leads[i] \o <<k, 0>>)           \* most negative
+                    IN  FLe(FMul(FMul(FPDelta, lmin), PNorm2(r, leads[i], k)), QuadField(r, "bingham_covariance", leads[i], k))>> >> ELSE <<>>)
+          \o (IF DHas(r, "vmf_mean") /\ r.mean_kind = "vmf" /\ r.strict THEN << <<"vmf_mean_direction",
+                 \A i \in 1..Len(r.mleads) : \A k \in 0..(KOf(r) - 1) :
+                    LET f == Field(r.fields, "vmf_mean").t
+                        D == f.shape[Len(f.shape)]
+                        pre == IF Len(f.shape) = 2 THEN <<>> ELSE r.mleads[i]
+                        dot == FSum([a \in 1..D |-> FMul(Get(f, pre \o <<k, a - 1>>), Get(r.mprotos, r.mleads[i] \o <<k, a - 1>>))])
+                        pn2 == FSum([a \in 1..D |-> FSq(Get(r.mprotos, r.mleads[i] \o <<k, a - 1>>))])
+                    IN  FSgn(dot) > 0 /\ FLe(FMul(FSub(FOne, FPDelta), pn2), FSq(dot))>> >> ELSE <<>>)
+          \o (IF DHas(r, "gaussian_mean") /\ r.mean_kind = "gaussian" /\ r.strict THEN << <<"gaussian_mean_close",
+                 \A i \in 1..Len(r.mleads) : \A k \in 0..(KOf(r) - 1) :
+                    LET f == Field(r.fields, "gaussian_mean").t
+                        D == f.shape[Len(f.shape)]
+                        pre == IF Len(f.shape) = 2 THEN <<>> ELSE r.mleads[i]
+                        d2 == FSum([a \in 1..D |-> FSq(FSub(Get(f, pre \o <<k, a - 1>>), Get(r.mprotos, r.mleads[i] \o <<k, a - 1>>)))])
+                        pn2 == FSum([a \in 1..D |-> FSq(Get(r.mprotos, r.mleads[i] \o <<k, a - 1>>))])
+                    IN  FLe(d2, FMul(FSq(FPDelta), pn2))>> >> ELSE <<>>)
+
 Checks(r) == CASE r.kind = "bayesx" -> BayesXChecks(r) [] r.kind = "posterior" -> PostChecks(r)
                [] r.kind = "init" -> InitChecks(r) [] r.kind = "flag" -> FlagChecks(r)
                [] r.kind = "weightx" -> WeightXChecks(r)
                [] r.kind = "twin" -> TwinChecks(r)
                [] r.kind = "domain" -> DomainChecks(r)
                [] r.kind = "mstep" -> MStepChecks(r) [] r.kind = "qform" -> QFormChecks(r) [] r.kind = "loop" -> LoopChecks(r)
+               [] r.kind = "fixedpoint" -> FixedPointChecks(r)
 NT(r) == CASE r.kind = "posterior" -> PostNT(r)
            [] r.kind = "bayesx" -> r.exc = "" /\ Len(r.w) >= 2
            [] r.kind = "twin" -> TwinNT(r)
            [] r.kind = "domain" -> DomainNT(r)
            [] r.kind = "mstep" -> r.exc = "" /\ KOf(r) >= 2 /\ r.has_sal
            [] r.kind = "loop" -> r.exc = "" /\ r.iterations >= 2
+           [] r.kind = "fixedpoint" -> r.exc = "" /\ KOf(r) >= 2
            [] OTHER -> r.exc = ""
 Init == l = 1 /\ verdicts = <<>>
 Next == /\ l <= Len(Trace)
